@@ -33,6 +33,9 @@ static Fields gen(Tape &t) {
       f.seti("klen." + std::to_string(i), t.below(8));
       f.seti("vlen." + std::to_string(i), t.below(9));
     }
+    // half of the huge lists are tuned: the last value's length is solved for so that the worst-case total lands exactly on
+    // INT_MAX-2 .. INT_MAX+2 (the sums of the other lengths rarely hit such a boundary by themselves)
+    f.seti("tune", t.coin() ? 0 : 1 + (int)t.below(5));
     return f;
   }
   int n = t.range(1, 6);
@@ -281,6 +284,7 @@ static Verdict check_huge(const Fields &f) {
   std::vector<UriQueryListA> nodes((size_t)n);
   long long T = 0;
   bool perItemTooBig = false;
+  long long lastVl = 0;
   auto pickLen = [&](long long sel) -> long long {
     switch (sel % 8) {
       case 0: return 10;
@@ -304,7 +308,23 @@ static Verdict check_huge(const Fields &f) {
     nodes[(size_t)i].value = hasV ? buf + (HUGE_BUF - (size_t)vl) : nullptr;
     nodes[(size_t)i].next = i + 1 < n ? &nodes[(size_t)i + 1] : nullptr;
     if (kl >= lim || vl >= lim) perItemTooBig = true;
+    lastVl = vl;
     T += (i ? 1 : 0) + w * kl + (hasV ? 1 + w * vl : 0);
+  }
+  int tune = (int)f.geti("tune");
+  if (tune > 0 && n >= 1 && nodes[(size_t)n - 1].value != nullptr && !perItemTooBig) {
+    // T = rest + w * vl(last): solve for vl so that T == INT_MAX + (tune - 3) if that is a whole number below the per-item limit
+    long long vlOld = lastVl;
+    long long rest = T - w * vlOld;
+    long long target = (long long)INT_MAX + (tune - 3);
+    if ((target - rest) % w == 0) {
+      long long vl = (target - rest) / w;
+      if (vl >= 0 && vl < lim && vl <= (long long)HUGE_BUF) {
+        nodes[(size_t)n - 1].value = buf + (HUGE_BUF - (size_t)vl);
+        T = target;
+        stats().hit("huge:tuned_to_INT_MAX" + std::string(tune < 3 ? "-" : "+") + std::to_string(tune < 3 ? 3 - tune : tune - 3));
+      }
+    }
   }
   int R = -1;
   int rc = uriComposeQueryCharsRequiredExA(nodes.data(), &R, URI_TRUE, nb ? URI_TRUE : URI_FALSE);
